@@ -1581,6 +1581,62 @@ fn anchor_sweep_cases(thorough: bool) -> Vec<Case> {
     out
 }
 
+/// A thread of thousands of SMALL messages: ordinals in the thousands (ordinal index offsets, cut points far from the tail),
+/// hundreds of messages inside every tail window, a full sidecar many seek-index strides long.  Compile anchors: a coarse
+/// stride over the whole thread plus every message around the places where the doubling windows of the mr tail scan begin.
+fn dense_cases(thorough: bool) -> Vec<Case> {
+    use FaultKind::*;
+    use Target::*;
+    let n: u64 = 3000;
+    let mut ops = vec![];
+    for i in 0..n {
+        ops.push(Op::Msg { size: 20 });
+        if i % 50 == 7 {
+            ops.push(Op::RunSpawned { msg: i });
+            ops.push(Op::RunEnded { msg: u64::MAX });
+        }
+        if i == 700 || i == 2100 {
+            ops.push(Op::Checkpoint { msg: i - 100 });
+        }
+    }
+    // an mr line of such a message is ~330 bytes: window k (256 KiB << k) begins ~ (256 KiB << k) / 330 messages before the end
+    let queries_for = |step: usize, around: u64| {
+        let mut anchors: Vec<u64> = (0..n).step_by(step).collect();
+        for k in 0..4u64 {
+            let back = ((256u64 << 10) << k) / 330;
+            if back + 30 < n && around > 0 {
+                let centre = n - back;
+                anchors.extend(centre.saturating_sub(around)..(centre + around).min(n));
+            }
+        }
+        anchors.extend([0, 1, 15, 16, 17, n - 17, n - 16, n - 2, n - 1]);
+        anchors.sort();
+        anchors.dedup();
+        let mut queries: Vec<Q> = anchors.iter().map(|i| Q::Compile { msg: *i }).collect();
+        queries.extend([Q::CutPoints { stride: 7, limit: 32 }, Q::CutPoints { stride: 1000, limit: 8 }, Q::CompactionStatus { stride: 64 }, Q::Replay, Q::BranchCut { sel: Sel::Msg(1500) }, Q::HandoffCut { sel: Sel::Seq(4000) }]);
+        queries
+    };
+    let variants: Vec<Vec<Op>> = vec![
+        vec![],
+        vec![fault(Mr, GarbageLine(0))],                                        // every anchor through the full-sidecar window (message-id + seek index)
+        vec![fault(MsgIdx, Delete), fault(Seek, Delete), fault(Mr, TruncMidLine)], // ... with those indexes rebuilt by the read
+        vec![fault(Ord, Delete)],                                               // cut points without the ordinal index
+    ];
+    let take = if thorough { variants.len() } else { 2 };
+    variants
+        .into_iter()
+        .take(take)
+        .enumerate()
+        .map(|(i, v)| {
+            let mut o = ops.clone();
+            o.extend(v);
+            // quick: the window boundaries on the intact thread, a coarse stride on the faulted one
+            let queries = if thorough { queries_for(41, 25) } else if i == 0 { queries_for(149, 10) } else { queries_for(173, 0) };
+            Case { ops: o, queries, long: true }
+        })
+        .collect()
+}
+
 fn corpus_cases() -> Vec<Case> {
     let mut v = vec![];
     // S4: checkpoint sidecar re-created by append after delete
@@ -1867,6 +1923,7 @@ fn main() {
         let n = if a.thorough() { 1200 } else { 110 };
         let mut r = Rng::new(a.seed);
         cases.extend(anchor_sweep_cases(a.thorough()));
+        cases.extend(dense_cases(a.thorough()));
         {
             let mut r2 = Rng::new(a.seed ^ 0x5eed_c044);
             cases.extend(lifecycle_cases(&mut r2, a.thorough()));
